@@ -55,6 +55,12 @@ def _ws_script(p):
     sc = [["recv"]]
     if p.get("ws_pre") == "raise_before_accept":
         return sc + [["raise", "Exception"]]
+    if p.get("ws_pre") == "reject_close":
+        return sc + [["send", {"type": "websocket.close"}], ["linger", 40.0]]
+    if p.get("ws_pre") == "reject_http":
+        return sc + [["send", {"type": "websocket.http.response.start", "status": 401, "headers": [(b"x-why", b"auth")]}],
+                     ["send", {"type": "websocket.http.response.body", "body": b"de", "more_body": True}],
+                     ["send", {"type": "websocket.http.response.body", "body": b"nied", "more_body": False}], ["linger", 40.0]]
     if p.get("ws_pre") == "slow_accept":
         sc += [["wait", "late"]]
     if r in ("now", "late_after_disconnect"):
@@ -120,7 +126,9 @@ def gen(rng, tier):
         else:
             tag = i * 10
             p = _plan(rng, tag, True)
-            p["ws_pre"] = rng.choice([None, None, None, "raise_before_accept", "slow_accept"])
+            p["ws_pre"] = rng.choice([None, None, None, "raise_before_accept", "slow_accept", "reject_close", "reject_http"])
+            if p["ws_pre"] in ("reject_close", "reject_http"):
+                p["respond"] = "now"
             if p["ws_pre"] == "raise_before_accept":
                 p["respond"] = "raise"
             p["ws_post"] = rng.choice([None, None, "server_close_then_wait"])
